@@ -8,7 +8,7 @@ namespace Nmfu
 set_option linter.unusedSectionVars false
 set_option linter.unusedSimpArgs false
 
-variable {A Q : Type} [DecidableEq A] [DecidableEq Q]
+variable {A Q L : Type} [DecidableEq A] [DecidableEq Q]
 
 /-- The answers recorded in `es` are the ones `ω` gives when `es` is performed from `h`. -/
 def Consistent (ω : Oracle A Q) : List (Ev A Q) → List (Ev A Q) → Prop
@@ -16,23 +16,23 @@ def Consistent (ω : Oracle A Q) : List (Ev A Q) → List (Ev A Q) → Prop
   | h, .act a :: es => Consistent ω (h ++ [.act a]) es
   | h, .asked q v :: es => ω h q = v ∧ Consistent ω (h ++ [.asked q v]) es
 
-@[simp] theorem run_emit (ω : Oracle A Q) (a : A) (k : Tree A Q Leaf) (h : List (Ev A Q)) :
+@[simp] theorem run_emit (ω : Oracle A Q) (a : A) (k : Tree A Q L) (h : List (Ev A Q)) :
     (Tree.emit a k).run ω h =
       (.act a :: (k.run ω (h ++ [.act a])).1, (k.run ω (h ++ [.act a])).2) := by
   simp [Tree.run]
 
-theorem run_ask (ω : Oracle A Q) (q : Q) (kt kf : Tree A Q Leaf) (h : List (Ev A Q)) (v : Bool)
+theorem run_ask (ω : Oracle A Q) (q : Q) (kt kf : Tree A Q L) (h : List (Ev A Q)) (v : Bool)
     (hv : ω h q = v) :
     (Tree.ask q kt kf).run ω h =
       (.asked q v :: ((if v then kt else kf).run ω (h ++ [.asked q v])).1,
         ((if v then kt else kf).run ω (h ++ [.asked q v])).2) := by
   cases v <;> simp [Tree.run, hv]
 
-@[simp] theorem run_leaf (ω : Oracle A Q) (l : Leaf) (h : List (Ev A Q)) :
-    (Tree.leaf l : Tree A Q Leaf).run ω h = ([], l) := by
+@[simp] theorem run_leaf (ω : Oracle A Q) (l : L) (h : List (Ev A Q)) :
+    (Tree.leaf l : Tree A Q L).run ω h = ([], l) := by
   simp [Tree.run]
 
-theorem run_mem_paths (ω : Oracle A Q) (t : Tree A Q Leaf) (h : List (Ev A Q)) :
+theorem run_mem_paths (ω : Oracle A Q) (t : Tree A Q L) (h : List (Ev A Q)) :
     t.run ω h ∈ t.paths := by
   induction t generalizing h with
   | emit a k ih =>
@@ -46,7 +46,7 @@ theorem run_mem_paths (ω : Oracle A Q) (t : Tree A Q Leaf) (h : List (Ev A Q)) 
     | false => right; exact ⟨_, ihf _, rfl⟩
   | leaf l => simp [Tree.paths]
 
-theorem run_consistent (ω : Oracle A Q) (t : Tree A Q Leaf) (h : List (Ev A Q)) :
+theorem run_consistent (ω : Oracle A Q) (t : Tree A Q L) (h : List (Ev A Q)) :
     Consistent ω h (t.run ω h).1 := by
   induction t generalizing h with
   | emit a k ih => simp only [run_emit, Consistent]; exact ih _
